@@ -119,6 +119,10 @@ FRAGMENTS = [
     lambda r: "<math>\\frac{a}{b}</math>",
     lambda r: "<gallery>\nFile:A.png|%s\nFile:B.png\n</gallery>" % words(r, 3),
     lambda r: "<ul><li>a</li><b>x</b><ol><li>q</li></ol>loose</ul>",
+    # a reference nested in a repeated definition of a named reference
+    lambda r: "<ref name=a>%s</ref>%s<ref name=a>%s%s </ref> u" % (
+        r.choice(("x", words(r, 2))), r.choice(("", " t ")), r.choice(("[[file:PNG]]", "[[file:p.PNG]] ", words(r, 1) + " ", "")),
+        r.choice(("{{#tag:ref}}", "{{#tag:ref|x}}", "<ref>y</ref>", "<ref></ref>", "<ref>%s</ref>" % words(r, 2), "{{#tag:ref|%s|name=a}}" % words(r, 1)))),
     # a heading line cut by table markup (one token used to end up in two places of the tree)
     lambda r: " {|\n%s ||%s==\n[http://e.none]</\n== <%s> ===" % (r.choice(("===", "==", "=")), words(r, 1), r.choice(("table", "td", "div", "ref", "b"))),
     lambda r: "{|\n|\n%s\n{|\n|}<%s> </%s>\n=%s<TH ref>C=" % (r.choice(("=|=", "==|==", "= a | b =")), *((r.choice(("hiero", "math", "b", "ref")),) * 2), words(r, 1)),
